@@ -4,6 +4,9 @@ package main
 // this file by stomp_off.go when the broker is not there).
 
 import (
+	"io"
+	"log"
+
 	frugal "github.com/Workiva/frugal/lib/go"
 
 	"verif/rig"
@@ -21,44 +24,96 @@ type stompSubscriber struct {
 const stompSubWorker = "(*fStompSubscriberTransport).processMessages"
 
 func newStompSubscriber(proto string) (entryPoint, error) {
+	log.SetOutput(io.Discard) // go-stomp reports connection errors on the standard logger
 	b, err := rig.StartStompBroker()
 	if err != nil {
 		return nil, subscriberSetupError("stomp broker", err)
 	}
-	conn, err := b.Dial()
-	if err != nil {
-		return nil, subscriberSetupError("stomp dial", err)
-	}
-	s := &stompSubscriber{proto: proto, broker: b, got: make(chan *mainsvc.Payload, 4096)}
-	provider := frugal.NewFScopeProvider(
-		frugal.NewFStompPublisherTransportFactoryBuilder(conn).Build(),
-		frugal.NewFStompSubscriberTransportFactoryBuilder(conn).Build(),
-		rig.ProtocolFactory(proto))
-	if _, err := mainsvc.NewEventsSubscriber(provider).SubscribeSent("u1", func(_ frugal.FContext, p *mainsvc.Payload) { s.got <- p }); err != nil {
-		return nil, subscriberSetupError("stomp subscribe", err)
-	}
-	if !b.WaitSubscribers(stompDestination, 1, hardWait) {
-		return nil, subscriberSetupError("stomp subscribe", errNoSubscriber)
+	s := &stompSubscriber{proto: proto, broker: b}
+	if err := s.subscribe(); err != nil {
+		return nil, err
 	}
 	return s, nil
 }
 
+// subscribe makes a new connection and a new generated subscription on it.
+func (s *stompSubscriber) subscribe() error {
+	conn, err := s.broker.Dial()
+	if err != nil {
+		return subscriberSetupError("stomp dial", err)
+	}
+	got := make(chan *mainsvc.Payload, 4096)
+	s.got = got
+	before := s.broker.FrameCounts()["SUBSCRIBE"]
+	provider := frugal.NewFScopeProvider(
+		frugal.NewFStompPublisherTransportFactoryBuilder(conn).Build(),
+		frugal.NewFStompSubscriberTransportFactoryBuilder(conn).Build(),
+		rig.ProtocolFactory(s.proto))
+	if _, err := mainsvc.NewEventsSubscriber(provider).SubscribeSent("u1", func(_ frugal.FContext, p *mainsvc.Payload) { got <- p }); err != nil {
+		return subscriberSetupError("stomp subscribe", err)
+	}
+	// the broker has seen this SUBSCRIBE (an older, failed connection may still
+	// be on its way out of the broker's tables)
+	if o := awaitCond(func() bool {
+		return s.broker.FrameCounts()["SUBSCRIBE"] > before && s.broker.SubscriberCount(stompDestination) >= 1
+	}, nil); o.kind != "ok" {
+		return subscriberSetupError("stomp subscribe", errNoSubscriber)
+	}
+	return nil
+}
+
 const stompDestination = "/topic/frugal.foo.u1.Events.Sent"
 
-func (s *stompSubscriber) mode(idx int) string { return "message" }
+// mode: besides MESSAGE frames the peer can end a live subscription - with an
+// ERROR frame or by dropping the connection - after good messages.
+func (s *stompSubscriber) mode(idx int) string {
+	switch idx % 64 {
+	case 13:
+		return "message+broker-ERROR-frame"
+	case 45:
+		return "message+connection-dropped"
+	}
+	return "message"
+}
 
-func (s *stompSubscriber) deliver(idx int, in input) outcome {
-	s.broker.Inject(stompDestination, in.Data)
+func (s *stompSubscriber) canary(idx int) outcome {
 	s.broker.Inject(stompDestination, pubCanary(s.proto, idx))
 	_, o := await(s.got, isCanary(idx), stompSubWorker)
 	if o.kind == "stall" {
 		o.note = "well-formed message delivered after the input never reached the subscriber callback: " + o.note
 	}
-	if o.kind != "ok" {
+	return o
+}
+
+func (s *stompSubscriber) deliver(idx int, in input) outcome {
+	s.broker.Inject(stompDestination, in.Data)
+	if o := s.canary(idx); o.kind != "ok" {
 		return o
 	}
 	if idx%256 == 255 {
 		s.broker.Forget(stompDestination)
 	}
-	return okOutcome("same-subscription")
+	m := s.mode(idx)
+	if m == "message" {
+		return okOutcome("same-subscription")
+	}
+	// the peer ends the subscription: the subscriber's receive loop must come to
+	// an end without taking the process down (its goroutine going away is the
+	// logical fence), and a new subscription must be served
+	if m == "message+broker-ERROR-frame" {
+		s.broker.FailSubscribers(stompDestination, "broker shutting down")
+	} else {
+		s.broker.DropSubscribers(stompDestination)
+	}
+	if o := awaitCond(func() bool { return goroutinesWith(stompSubWorker) == 0 }, nil); o.kind != "ok" {
+		o.note = "the subscriber's receive loop is still there after the peer ended the connection: " + o.note
+		return o
+	}
+	if err := s.subscribe(); err != nil {
+		return outcome{"wrong", "[resubscribe] new connection and subscription after the peer ended the old one: " + err.Error()}
+	}
+	if o := s.canary(idx); o.kind != "ok" {
+		return o
+	}
+	return okOutcome("new-subscription-after-peer-fault")
 }
